@@ -40,13 +40,13 @@ def err_class(line, keep=("depth", "version")):
 
 
 def generic_run(binary, relevant_cmds, oracle_tags, sizes, canon=None, extra_args=None, corpus=None,
-                rule="", nontrivial=None, scenario_cmd=None, full_canon=None):
+                rule="", nontrivial=None, scenario_cmd=None, full_canon=None, subdir=""):
     """Builds the `run` function of a property served by a req/rust/lean line-protocol binary."""
 
     def run(pid, spec, tier, seed, replay):
         thorough = tier == "thorough"
         cases, shards = sizes["thorough" if thorough else "quick"]
-        base = os.path.join(WORK, f"{pid}-{tier}")
+        base = os.path.join(WORK, f"{pid}-{tier}{subdir}")
         subprocess.run(["rm", "-rf", base])
         os.makedirs(base, exist_ok=True)
         extra = list(extra_args or [])
@@ -163,6 +163,9 @@ def req_of_oracle(line):
     m = re.search(r"input=(\S+)", line)
     if not m:
         return ""
+    t = re.search(r"type=(\S+)", line)
+    if t:
+        return f"tyv {t.group(1)} {m.group(1)}   (after the `tenv` line of the run, req.txt line 1)"
     return "dec " + m.group(1)
 
 
@@ -278,6 +281,115 @@ CODEC_TRUSTED = [
     "BytesMut as a byte list; f32/f64 as bit patterns; String::from_utf8 as the model's validUtf8 (differentially tested)",
 ]
 
+# ---------------------------------------------------------------------------------------------
+# C16: the typed harness is its own cargo package (harness-typed) because it only builds when the code
+# generator's output for the schema corpus compiles. Quick: the committed corpus. Thorough: additionally
+# fresh batches of grammar-generated schemas (tools/gen_schemas.py), each compiled and run.
+
+TYPED_DIR = os.path.join(ROOT, "harness-typed")
+C16_RULE = ("schema corpus = harness-typed/schemas (hand-written: all primitives, nested generics, arrays, keys by newtype, "
+            "recursion through box/vec/option, fallbacks, Rust keywords as names, documentation with quotes and backslashes, "
+            "imports, a service with inline structs / enums; plus committed generated schemas and old/new pairs) and, in the "
+            "thorough tier, fresh batches from the grammar-directed generator tools/gen_schemas.py; the build script parses every "
+            "schema with aldrin-parser, has rustc compile `aldrin::generate!` for all of them (client, server, introspection) and "
+            "derives a type description per struct / enum / newtype / inline type from the AST. Per generated type: conforming "
+            "dynamic values from the description in both container encodings (2/3), and values damaged in one place (1/3): "
+            "required or optional field removed, unknown field id added, field retyped, Option wrapping changed, struct sent as "
+            "map, unknown variant, payload retyped, enum unwrapped, nested damage, value replaced. Each value goes through "
+            "deserialize-as-T / serialize-again of the generated type; the result (or `err`) is compared with the model's "
+            "`accept`. Implementation-only oracles: conforming values are accepted, decode/encode is stable, a missing required "
+            "field is rejected, an unknown field id is tolerated and kept exactly when the struct has a fallback, an unknown "
+            "variant is kept or rejected by fallback, generated code does not panic; per old/new pair, data of the new type "
+            "survives a pass through the old type")
+
+
+def _cargo_lock():
+    import fcntl
+    os.makedirs(WORK, exist_ok=True)
+    f = open(os.path.join(WORK, "cargo.lock"), "w")
+    fcntl.flock(f, fcntl.LOCK_EX)
+    return f
+
+
+def c16_build_failure(out):
+    """cargo build of harness-typed failed: generated code that does not compile is the violation itself."""
+    gen = ("typed_gen.rs" in out or "generate!" in out or "aldrin_macros" in out or "schema corpus:" in out
+           or "in this macro invocation" in out)
+    i = out.find("error")
+    tail = (out[i:i + 4000] + "\n[...]\n" + out[-1500:]) if 0 <= i < len(out) - 5500 else out[-6000:]
+    if gen:
+        return ("codegen-compile", "the code generated for the schema corpus does not compile (or a valid schema is rejected)",
+                "property C16: rustc rejects what `aldrin::generate!` produces for the schema corpus in harness-typed/schemas "
+                "(or the parser rejects a valid schema of the corpus).\nreplay: cd /verif/harness-typed && cargo build --offline --release\n\n" + tail, True)
+    return ("harness", "typed harness no longer builds against /repo",
+            "broken tie: cargo build of harness-typed failed\n" + tail, False)
+
+
+def c16_run(pid, spec, tier, seed, replay):
+    thorough = tier == "thorough"
+    batches = [None]
+    if thorough and not replay:
+        batches += [seed * 100 + k for k in range(1, 4)]
+    total = {"evaluations": 0, "disagreements": 0, "oracle_failures": 0, "distribution": {}, "samples": [],
+             "rule": C16_RULE, "distinct_nontrivial": 0, "shards": 0, "schema_batches": [], "generated_types": 0}
+    violations = []
+    for bi, b in enumerate(batches):
+        wd = os.path.join(WORK, f"{pid}-{tier}-b{bi}")
+        subprocess.run(["rm", "-rf", wd])
+        os.makedirs(wd, exist_ok=True)
+        env = dict(os.environ)
+        env["CARGO_NET_OFFLINE"] = "true"
+        env.pop("TYPED_SCHEMA_DIR", None)
+        if b is not None:
+            sdir = os.path.join(wd, "schemas")
+            g = _run(["python3", os.path.join(ROOT, "tools", "gen_schemas.py"), str(b), sdir, "10", "4"])
+            if g.returncode != 0:
+                violations.append(("harness-run", "schema generator failed", "broken tie: tools/gen_schemas.py failed\n" + g.stderr.decode(errors="replace")[-2000:], False))
+                continue
+            env["TYPED_SCHEMA_DIR"] = sdir
+        binary = os.path.join(wd, "typed")
+        lock = _cargo_lock()
+        try:
+            p = subprocess.run(["cargo", "build", "--offline", "--release"], cwd=TYPED_DIR, env=env, stdout=subprocess.PIPE,
+                               stderr=subprocess.STDOUT, text=True, timeout=3600)
+            if p.returncode == 0:
+                subprocess.run(["cp", os.path.join(HARNESS_BIN, "typed"), binary], check=True)
+        finally:
+            lock.close()
+        if p.returncode != 0:
+            v = c16_build_failure(p.stdout)
+            if b is not None:
+                # keep the schemas that do not compile next to the replay
+                keep = os.path.join(ROOT, "replays", f"C16-schemas-batch{b}")
+                subprocess.run(["rm", "-rf", keep])
+                subprocess.run(["cp", "-r", env["TYPED_SCHEMA_DIR"], keep])
+                v = (v[0], v[1], v[2].replace("cd /verif/harness-typed && cargo build", f"cd /verif/harness-typed && TYPED_SCHEMA_DIR={keep} cargo build"), v[3])
+            violations.append(v)
+            continue
+        sizes = {"quick": (2500, 4), "thorough": (6000, 14)}
+        run = generic_run(binary, {"tyv"}, {"C16"}, sizes, canon=None, rule=C16_RULE, subdir=f"-b{bi}-run")
+        res = run(pid, spec, tier, seed + bi, replay)
+        c = res["coverage"]
+        for k in ("evaluations", "disagreements", "oracle_failures", "distinct_nontrivial", "shards"):
+            total[k] += c.get(k, 0)
+        for k, v in c.get("distribution", {}).items():
+            total["distribution"][k] = total["distribution"].get(k, 0) + v
+        total["samples"] = (total["samples"] + c.get("samples", []))[:8]
+        try:
+            with open(os.path.join(WORK, f"{pid}-{tier}-b{bi}-run", "s0", "stats.json")) as f:
+                ntypes = json.load(f).get("types", 0)
+        except (OSError, ValueError):
+            ntypes = 0
+        total["generated_types"] += ntypes
+        total["schema_batches"].append({"batch": "committed corpus" if b is None else f"gen_schemas.py seed {b} (10 schemas, 4 old/new pairs) + committed corpus",
+                                        "types_compiled": ntypes})
+        violations += res["violations"]
+        if b is not None:
+            subprocess.run(["rm", "-rf", os.path.join(wd, "schemas")])
+        subprocess.run(["rm", "-f", binary])
+    return {"coverage": total, "violations": violations}
+
+
 PROPS = {
     "C01": {
         "props_module": "Aldrin.Props.C01",
@@ -349,6 +461,20 @@ PROPS = {
         "trusted": ["SHA-1 / UUIDv5 are evaluated by the model's own implementation and compared with the uuid crate on every case; "
                     "collision resistance is assumed", "that the closure loop reaches exactly the reachable types is tied by the "
                     "correspondence, not proved"],
+    },
+    "C16": {
+        "props_module": "Aldrin.Props.C16",
+        "namespace": "Aldrin.Typed",
+        "level": "proof",
+        "harness_dir": "harness-typed",
+        "build_failure": c16_build_failure,
+        "run": c16_run,
+        "trusted": ["modelled, not verified: the model works on the dynamic value the bytes decode to (C01's decoder), not on the "
+                    "typed deserializers' byte walk; depth limits of the typed deserializers and serialization errors are not modelled",
+                    "that generated code compiles is established by rustc on the corpus and on generated schemas (a test over "
+                    "sampled schemas, not a theorem)",
+                    "harness-typed/build.rs derives the type descriptions from the parser's AST and the names of inline types "
+                    "from the service and item names"],
     },
     "C19": {
         "props_module": "Aldrin.Props.C19",
